@@ -16,8 +16,8 @@ const (
 	HPHash256    = 2
 	HPHash256Alt = 3
 
-	HAHash       = 4 // average hash: any image size
-	HBlurHash    = 5 // BlurHash string: any image size
+	HAHash    = 4 // average hash: any image size
+	HBlurHash = 5 // BlurHash string: any image size
 )
 
 var HashNames = []string{"NewPHash64", "NewPHash64Alt", "NewPHash256", "NewPHash256Alt", "NewAHash", "EncodeBlurHashFast"}
